@@ -455,6 +455,42 @@ def d2_sort_table(chk, prog):
     tbs.done("GenomicArray.sort does not order rows by (natural chromosome order, start, end) with ties in input order, renumbered 0..n-1")
 
 
+def d1_gff_rows(chk, prog):
+    """read_gff on a literal three-record file whose records are not in sorted order: every row keeps its own record's name"""
+    fi = prog.fn("skgenome.tabio.gff.read_gff")
+    tb = Table(chk, "coordinate-offset", "read_gff on a literal file of 4 records out of order (chr2 before chr10, two records of one contig swapped; one record of another type): each row carries its own record's "
+               "start - 1, end and name", fi.loc(), fi.qn + "::rows")
+    recs = [("chr2", "gene", 500, 600, 'ID=g1;Name=TP53'), ("chr10", "gene", 40, 90, 'gene_id "A1BG"; x "y"'), ("chr2", "gene", 100, 200, 'Name=BRCA2;Alias=q'), ("chr2", "exon", 100, 150, 'Name=EX1')]
+    for keep_type in (None, "gene"):
+        W.reset()
+        m = Model()
+
+        def read_csv(it, src, names=None, **kw):
+            cols = list(names)
+            vals = {"chromosome": [r[0] for r in recs], "source": ["src"] * len(recs), "type": [r[1] for r in recs], "start": [r[2] for r in recs], "end": [r[3] for r in recs],
+                    "score": ["."] * len(recs), "strand": ["+"] * len(recs), "phase": ["."] * len(recs), "attribute": [r[4] for r in recs]}
+            d = DF({c: Vec(vals[c], aligned=True) for c in cols}, len(recs))
+            d.exact = True
+            for v in d.cols.values():
+                v.exact = True
+            return d
+        m.ext["pd.read_csv"] = read_csv
+        it = Interp(prog, m)
+        out = tb.guard(lambda: it.run(fi.qn, ["x.gff"], {"keep_type": keep_type} if keep_type else {}), f"keep_type={keep_type}")
+        if out is None:
+            continue
+        import re as _re
+        want = sorted(((c, s_ - 1, e_, _re.search(r'(Name|gene_id|gene_name|gene)[= ]"?(?P<gene>\S+?)"?(;|$)', a).group("gene")) for c, t, s_, e_, a in recs if keep_type is None or t == keep_type))
+        keep = out.cols.get("__keep__") if isinstance(out, DF) else None
+        try:
+            got = [(out.cols["chromosome"].v[i], int(T(out.cols["start"].v[i]).cval()), int(T(out.cols["end"].v[i]).cval()), out.cols["gene"].v[i]) for i in range(len(out.cols["start"].v))
+                   if keep is None or keep.v[i] is True]
+        except Exception as e:
+            raise AnalysisError(f"C08 read_gff rows: result not literal ({e})")
+        tb.cell(got == want, dict(keep_type=keep_type, got=got, want=want))
+    tb.done("read_gff gives a row another record's name (or coordinates): the names are not carried with their own records through the sort")
+
+
 def d1_bed_names(chk, prog):
     """BED readers keep the whole 4th tab-separated field as the name (shared with C09: the read-count path reads its bins through them)"""
     readers = registry(prog, "READERS")
@@ -831,6 +867,7 @@ def run(chk):
     chk.assume("a reader treats every data row alike (row-wise parametricity), so one symbolic row decides the offset for all rows")
     d1_offsets(chk, prog)
     d1_bed_names(chk, prog)
+    d1_gff_rows(chk, prog)
     d1_segnames(chk, prog)
     from . import C20
     C20.d3(chk, prog)               # what export seg writes (ids, 1-based starts, enumerated chromosome ids): shared with C20-D3
